@@ -1003,7 +1003,12 @@ def __fixXmlPart(xmlpart):
     requestedPrefixes = (u'meta', u'config', u'dc', u'style',
                          u'svg', u'fo',u'draw', u'table',u'form')
     import re
-    root = re.search(u'<(?![?!])[^\\s/>]+', xmlpart)        # name of the document element
+    # the document element follows the prolog: XML declaration, comments, processing instructions
+    # and a DOCTYPE with its internal subset - a '<name' inside one of those is not a start tag
+    prolog = re.match(u'\ufeff?(?:\\s|<\\?(?:[^?]|\\?(?!>))*\\?>|<!--(?:[^-]|-(?!->))*-->|<!DOCTYPE(?:"[^"]*"|\'[^\']*\'|'
+                      u'\\[(?:<!--(?:[^-]|-(?!->))*-->|<\\?(?:[^?]|\\?(?!>))*\\?>|"[^"]*"|\'[^\']*\'|[^\\]"\'<]|<(?!!--|\\?))*\\]|'
+                      u'[^\\[>"\'])*>)*', xmlpart)      # every alternative starts differently: no backtracking
+    root = re.compile(u'<(?![?!])[^\\s/>]+').match(xmlpart, prolog.end())        # name of the document element
     if root is None: return xmlpart
     # up to the first '>' outside a quoted attribute value
     roottag = re.match(u'(?:[^>"\']|"[^"]*"|\'[^\']*\')*', xmlpart[root.end():]).group(0)
